@@ -37,6 +37,11 @@ def _ray2d_core(
         isrc = np.searchsorted(z, zsrc, side="right") - 1
         jsrc = np.searchsorted(x, xsrc, side="right") - 1
 
+    # A ray that honors the grid cannot make more successive steps without
+    # crossing a grid line than it takes to cross the whole grid
+    nfree_max = int(dist2d(z[0], x[0], z[-1], x[-1]) / stepsize) + 1
+    nfree = 0
+
     count = 1
     pcur = np.array([zend, xend], dtype=np.float64)
     delta = np.empty(2, dtype=np.float64)
@@ -62,6 +67,8 @@ def _ray2d_core(
             pcur[1] = min(max(pcur[1], x[0]), x[-1])
 
             if fac < 1.0:
+                nfree = 0
+
                 # Grid magnetism: handle precision issues due to fac
                 for ix in range(2):
                     if np.abs(pcur[ix] - lower[ix]) < 1.0e-8:
@@ -83,6 +90,9 @@ def _ray2d_core(
                 if i == isrc and j == jsrc:
                     break
 
+            else:
+                nfree += 1
+
         else:
             pcur -= delta
             pcur[0] = min(max(pcur[0], z[0]), z[-1])
@@ -91,10 +101,10 @@ def _ray2d_core(
             ray[count] = pcur.copy()
             count += 1
 
-        if count >= max_step:
+        if count >= max_step or nfree > nfree_max:
             break
 
-    if count >= max_step:
+    if count >= max_step or nfree > nfree_max:
         return ray, -2
 
     ray[count] = np.array([zsrc, xsrc], dtype=np.float64)
